@@ -54,7 +54,7 @@ fn spec(t: Tier) -> Spec {
     Spec {
         id: "C16",
         level: "exploration",
-        rule: format!("components: literal x, literal é, escapes \\a \\b \\f \\n \\r \\t \\v \\\\ \\0 \\101, %%, and each directive of p f h H P d s n i U G m y Y l with flag (none, -) x width (none, 1, 9): 103 components. Every format of <= {all} components on every configuration (9 starting-point spellings: r ./r r/ r// r/. . ../w/r absolute link-to-dir x -P -H -L) and of <= {deep} components on 4 configurations (quick: on one, r/ under -H), rendered by the real find over a sandbox with every entry kind (regular, setuid, hard links, empty/non-empty/sticky/setgid directories, fifo, socket, links to each, dangling, outside, at depth 0..2, owners 0/1/54321/2^31) in -sorted order, several formats per run as consecutive -printf actions; the whole output must equal, byte for byte, the independent renderer's (values from lstat()/stat()/readlink() of the selected record, padding left/right to the width, never truncated, literals verbatim, nothing appended). A mismatching batch is bisected to the format and to the component. -fprintf FILE FORMAT is run for every single-component format. non-trivial = format containing a directive", all = t.pick(2, 2), deep = 3),
+        rule: format!("components: literal x, literal é, escapes \\a \\b \\f \\n \\r \\t \\v \\\\ \\0 \\101, %%, and each directive of p f h H P d s n i U G m y Y l with flag (none, -) x width (none, 1, 9): 103 components. Every format of <= {all} components on every configuration (9 starting-point spellings: r ./r r/ r// r/. . ../w/r absolute link-to-dir x -P -H -L) and of <= {deep} components on all 27 configurations in thorough (quick: on one, r/ under -H), rendered by the real find over a sandbox with every entry kind (regular, setuid, hard links, empty/non-empty/sticky/setgid directories, fifo, socket, links to each, dangling, outside, at depth 0..2, owners 0/1/54321/2^31) in -sorted order, several formats per run as consecutive -printf actions; the whole output must equal, byte for byte, the independent renderer's (values from lstat()/stat()/readlink() of the selected record, padding left/right to the width, never truncated, literals verbatim, nothing appended). A mismatching batch is bisected to the format and to the component. -fprintf FILE FORMAT is run for every single-component format. non-trivial = format containing a directive", all = t.pick(2, 2), deep = 3),
         bound: json!({"components": 103, "max_components_all_configs": 2, "max_components_deep_configs": 3, "configs": 27}),
         assumptions: vec![
             "not judged (entries filtered out of the run by -path): %Y and %l on a link the follow mode resolves, %Y on a dangling link; %f/%h at depth 0 and %h at depth 1 when the starting point ends in '/' or '/.'; %h of an absolute starting point".into(),
@@ -401,7 +401,8 @@ fn run(ctx: &mut Ctx) {
                 ctx.rep.machinery(format!("reference walk of {root} is empty"));
                 continue;
             }
-            let deep = if ctx.tier == Tier::Thorough { deep_cfgs.contains(&(ri, follow)) } else { (ri, follow) == (2, 'H') };
+            let _ = &deep_cfgs;
+            let deep = if ctx.tier == Tier::Thorough { true } else { (ri, follow) == (2, 'H') };
             let f3;
             let fmts: &Vec<Vec<&Comp>> = if deep {
                 f3 = formats_upto(&comps, 3);
